@@ -918,7 +918,8 @@ def check_self_reassign(ctx: Ctx, va: FuncInfo):
     tmp = pat.look_through(tmp, binds) if tmp is not None else None
     tname = pat.field(tmp, "id") if pat.ctor_name(tmp) == "Name" else None
     fresh = isinstance(tname, ast.JoinedStr) and pat.t(tname).startswith("f'__{")
-    ok = fresh and pat.t(pat.field(first, "value", binds)) in ("self.visit(node.value)", "node.value") and pat.t(pat.field(second, "targets", binds)) == "node.targets" and pat.look_through(pat.field(second, "value"), binds) is tmp
+    al = pat.path_aliases(va.node)
+    ok = fresh and pat.tx(pat.field(first, "value"), al) in ("self.visit(node.value)", "node.value") and pat.tx(pat.field(second, "targets"), al) == "node.targets" and pat.look_through(pat.field(second, "value"), binds) is tmp
     ctx.check(ok, "MP-polarity", va, role, f"{norm(first)[:60]} ; {norm(second)[:60]}", f"the self-referencing re-assignment is rewritten to `{norm(first)[:80]}` ; `{norm(second)[:80]}`: the new value must be computed into a reserved temporary first and the target assigned from it", rets[0])
 
 
@@ -1138,7 +1139,7 @@ def _env_methods_dropping_constant(ctx: Ctx):
                     if isinstance(t, ast.Subscript) and norm(t.value) == "self.constants":
                         key = t.slice
             if key is not None and isinstance(key, ast.Name) and key.id in ps:
-                out[name] = ps.index(key.id)
+                out[name] = (ps.index(key.id), key.id)
     return out
 
 
@@ -1157,7 +1158,8 @@ def check_const_table(ctx: Ctx):
     if len(tnames) != 1:
         raise AnchorError(va.short, "the assigned name is not bound as `<t> = node.targets[0].id`")
     t = tnames[0]
-    chains = [s_ for s_ in va.body if isinstance(s_, ast.If) and "node.value" in norm(s_.test) and any(isinstance(c.func, ast.Attribute) and norm(c.func.value) == "self.env" for c in q.calls(s_))]
+    al_ = pat.path_aliases(va.node)
+    chains = [s_ for s_ in va.body if isinstance(s_, ast.If) and "node.value" in pat.tx(s_.test, al_) and any(isinstance(c.func, ast.Attribute) and norm(c.func.value) == "self.env" for c in q.calls(s_))]
     if len(chains) != 1:
         raise AnchorError(va.short, f"{len(chains)} top-level if-chains classify node.value and update the environment: outside the tables")
     chain, els = q.if_chain(chains[0])
@@ -1165,8 +1167,8 @@ def check_const_table(ctx: Ctx):
     n_ok = 0
     for label, body in branches:
         envcalls = [c for s_ in body for c in q.calls(s_) if isinstance(c.func, ast.Attribute) and norm(c.func.value) == "self.env"]
-        sets = [c for c in envcalls if c.func.attr == "set_constant" and c.args and norm(c.args[0]) == t]
-        ends = [c for c in envcalls if c.func.attr in drops and len(c.args) > drops[c.func.attr] and norm(c.args[drops[c.func.attr]]) == t]
+        sets = [c for c in envcalls if c.func.attr == "set_constant" and q.arg(c, 0, "name") is not None and norm(q.arg(c, 0, "name")) == t]
+        ends = [c for c in envcalls if c.func.attr in drops and q.arg(c, drops[c.func.attr][0], drops[c.func.attr][1]) is not None and norm(q.arg(c, drops[c.func.attr][0], drops[c.func.attr][1])) == t]
         direct = [n for s_ in body for n in ast.walk(s_) if isinstance(n, ast.Call) and isinstance(n.func, ast.Attribute) and n.func.attr == "pop" and norm(n.func.value) == "self.env.constants" and n.args and norm(n.args[0]) == t]
         ok = bool(sets or ends or direct)
         n_ok += ok
